@@ -618,6 +618,8 @@ C13_CFGS_THOROUGH = C13_CFGS_QUICK + [("act9", "ctl2", 1, 0, "lf_crlf"), ("act9"
 def choose_cfgs(g, k, tier):
     if "c13" in g.tags:
         if tier != "thorough":
+            if any(t.startswith("k:") for t in g.tags):
+                return [C13_CFGS_QUICK[0], C13_CFGS_QUICK[1 + k % 2]]      # the systematic family: two of the three, rotated
             return C13_CFGS_QUICK
         # the three quick configurations + one of the remaining three, rotated
         return C13_CFGS_QUICK + [C13_CFGS_THOROUGH[3 + k % 3]]
